@@ -45,7 +45,7 @@ TRUSTED = [
     "which variant of a site model (as written / proposed fix) is compared is decided by replaying the finding's witness on the working tree",
     "the int64 run of the same operation is the reference for leg C; NumPy's own dense semantics are the business of C01-C10",
 ]
-DEADLINE_QUICK = 400
+DEADLINE_QUICK = 1500
 DEADLINE_THOROUGH = 3000
 
 # operation groups of leg C: each (dtype, group) pair is one worker process (numba compiles per coordinate dtype)
